@@ -236,7 +236,9 @@ Qed.
 
 (* ---- groups ------------------------------------------------------------------------- *)
 Definition comma : ascii := ","%char.
-Definition norm_members (ms : list string) : list string := match ms with [] => [""] | _ => ms end.
+(* since fix 4aa2cd2 an empty member field is read as NO members; the one list
+   that does not come back as written is the single empty member [""] *)
+Definition norm_members (ms : list string) : list string := if String.eqb (join "," ms) "" then [] else ms.
 Definition norm_group (e : group_entry) : group_entry := mkGE (ge_name e) (ge_pw e) (ge_gid e) (norm_members (ge_members e)).
 
 Lemma join_has_char : forall c ms, c <> comma -> forallb (fun m => negb (has_char c m)) ms = true ->
@@ -261,8 +263,23 @@ Proof.
     rewrite split_on_app_sep by exact Hm. rewrite IH; [reflexivity | discriminate | exact Ht].
 Qed.
 Lemma split_join_norm : forall ms, forallb (fun m => negb (has_char comma m)) ms = true ->
-  split_on comma (join "," ms) = norm_members ms.
-Proof. intros [|m t] H; [reflexivity|]. apply split_join; [discriminate | exact H]. Qed.
+  (if String.eqb (join "," ms) "" then [] else split_on comma (join "," ms)) = norm_members ms.
+Proof.
+  intros ms H. unfold norm_members. destruct (String.eqb (join "," ms) "") eqn:E; [reflexivity|].
+  destruct ms as [|m t]; [discriminate E|]. apply split_join; [discriminate | exact H].
+Qed.
+Lemma join_empty : forall ms, join "," ms = "" -> ms = [] \/ ms = [""].
+Proof.
+  intros [|m [|m' t]] H; auto.
+  - right. simpl in H. rewrite H. reflexivity.
+  - exfalso. change (join "," (m :: m' :: t)) with (m ++ "," ++ join "," (m' :: t))%string in H.
+    destruct m; discriminate H.
+Qed.
+Lemma norm_members_id : forall ms, ms <> [""] -> norm_members ms = ms.
+Proof.
+  intros ms H. unfold norm_members. destruct (String.eqb_spec (join "," ms) "") as [E|E]; [|reflexivity].
+  destruct (join_empty ms E) as [->| ->]; [reflexivity | contradiction].
+Qed.
 
 Definition group_line (e : group_entry) : string :=
   (ge_name e ++ ":" ++ ge_pw e ++ ":" ++ dec (ge_gid e) ++ ":" ++ join "," (ge_members e))%string.
@@ -330,6 +347,7 @@ Proof.
   break_wfg H. rewrite atoi_dec by (apply N.ltb_lt; assumption).
   change (sep_char members_sep) with comma.
   match goal with X : forallb member_ok _ = true |- _ => destruct (members_ok_inv _ X) as (_ & _ & M3) end.
+  change group_empty_members_nil with true. cbn [andb].
   rewrite (split_join_norm _ M3). reflexivity.
 Qed.
 
@@ -358,12 +376,12 @@ Lemma wf_examples :
   wf_group (mkGE "g" "x" 5 ["a"; "b"]) = true /\ wf_group (mkGE "h" "x" 6 []) = true.
 Proof. repeat split; vm_compute; reflexivity. Qed.
 
-(* re-reading turns "no members" into one empty member (strings.Split("", ",")
-   is [""]); the written text does not show the difference *)
+(* the normalisation does not show in the written text *)
 Lemma write_group_norm : forall e, write_group (norm_group e) = write_group e.
 Proof.
   intros [n p g ms]. unfold write_group, norm_group. cbn [ge_name ge_pw ge_gid ge_members].
-  destruct ms as [|m t]; [cbn [norm_members join]|]; reflexivity.
+  unfold norm_members. destruct (String.eqb_spec (join "," ms) "") as [E|E]; [|reflexivity].
+  change members_sep with ",". rewrite E. reflexivity.
 Qed.
 Lemma write_groups_norm : forall es, write_groups (List.map norm_group es) = write_groups es.
 Proof.
